@@ -116,7 +116,12 @@ pub fn warm_up(em: &emit_otlp::Otlp) {
 pub fn with_pipeline<R>(f: impl FnOnce(&mut Pipeline) -> R) -> R {
     let p = POOL.lock().unwrap().pop();
     let mut p = p.unwrap_or_else(Pipeline::new);
-    // leftovers of an aborted case must not be attributed to this one
+    // leftovers of an aborted case (a case that failed returns before its flush) must not be attributed
+    // to this one: drain every queue first (immediate when empty), then forget what arrived
+    let _ = p.file.blocking_flush(FLUSH);
+    for em in [&p.full_proto, &p.full_json, &p.logs_proto, &p.logs_json] {
+        let _ = em.blocking_flush(FLUSH);
+    }
     let _ = p.take_requests();
     let _ = p.new_file_bytes();
     let r = f(&mut p);
@@ -184,14 +189,26 @@ pub fn term_child_main() -> ! {
 pub fn run_term_child(ev: &Ev) -> std::io::Result<TermOut> {
     use std::process::{Command, Stdio};
     let exe = std::env::current_exe()?;
-    let mut child = Command::new(exe)
-        .arg(TERM_CHILD_ARG)
-        .env_remove("NO_COLOR")
-        .env("RUST_BACKTRACE", "0")
-        .stdin(Stdio::piped())
-        .stdout(Stdio::piped())
-        .stderr(Stdio::piped())
-        .spawn()?;
+    // a transient EAGAIN under load must not look like a finding: retry a few times
+    let mut attempt = 0;
+    let mut child = loop {
+        match Command::new(&exe)
+            .arg(TERM_CHILD_ARG)
+            .env_remove("NO_COLOR")
+            .env("RUST_BACKTRACE", "0")
+            .stdin(Stdio::piped())
+            .stdout(Stdio::piped())
+            .stderr(Stdio::piped())
+            .spawn()
+        {
+            Ok(c) => break c,
+            Err(e) if attempt >= 8 => return Err(e),
+            Err(_) => {
+                attempt += 1;
+                std::thread::sleep(Duration::from_millis(100 * attempt));
+            }
+        }
+    };
     {
         let mut stdin = child.stdin.take().unwrap();
         let _ = stdin.write_all(serde_json::to_string(ev).unwrap().as_bytes());
